@@ -163,9 +163,13 @@ class Exec(Engine):
 
     def s_Return(self, s, st):
         if s.value is None:
+            st.notes.append('return@%d' % s.lineno)
             return [(st, RET, NONE)]
-        return self._exprs(self.eval(s.value, st),
-                           lambda s2, v: [(s2, RET, v)])
+
+        def k(s2, v):
+            s2.notes.append('return@%d' % s.lineno)
+            return [(s2, RET, v)]
+        return self._exprs(self.eval(s.value, st), k)
 
     def s_Raise(self, s, st):
         if s.exc is None:
@@ -222,7 +226,7 @@ class Exec(Engine):
     def assign(self, target, v, st):
         """-> outcomes"""
         if isinstance(target, ast.Name):
-            st.env[target.id] = v
+            st.env[target.id] = self.typed_local(target.id, v)
             return [(st, NEXT, None)]
         if isinstance(target, (ast.Tuple, ast.List)):
             return self.unpack(target, v, st)
@@ -241,6 +245,22 @@ class Exec(Engine):
                     out.extend(k(s2, vs))
             return out
         raise Unsupported('assignment target', target)
+
+    def typed_local(self, name, v):
+        """sort('<local>', key) in the contract gives an empty list / set
+        literal assigned to that local its element sort (so that it can be
+        carried through a loop)"""
+        c = self.frame.contract
+        if c is None or name not in c.sorts:
+            return v
+        key = c.sorts[name]
+        if isinstance(v, VListC) and not v.items and key.startswith('Seq['):
+            srt = so.SORTS[key]
+            return VSeq(z3.Empty(srt), SORT_ELEM[str(srt.basis())])
+        if type(v).__name__ == 'VEmptySet' and key == 'Set[Ty]':
+            from .plug_types import EMPTY_SET
+            return VTySet(EMPTY_SET)
+        return v
 
     def unpack(self, target, v, st):
         n = len(target.elts)
